@@ -58,6 +58,15 @@ def tree_families(tier, seed):
         t += forms(b, I(0))[:5]
         t += forms(block([b, b]), b)[:3]
     fams["statement forms x body {one-line, braced} x nesting depth 2 (dangling else included)"] = t
+    # what a condition (or the last iterator of a loop) ends in x what a one-line body starts with
+    t = []
+    conds = [Bo(True), Bo(False), bin_("==", A, Bo(True)), bin_("&", B, Bo(False)), un("!", Bo(True)), I(1), Fl(3, 1), St("s"), ix1(A, I(0)), ix2(A, I(0), I(1)), call("f"), call("f", A),
+             bin_("<", A, I(2)), lst([A]), bin_("*", bin_("+", A, B), Cn), un("-", A), A]
+    starts = [paren_start(), fn([], I(1)), fn(["p"], N("p")), un("-", A), un("!", A), lst([A]), lst([]), St("t"), I(5), Bo(True), N("foo"), call("f", A), ret(paren_start()), y(paren_start()), assign("x", paren_start())]
+    for c in conds:
+        for b in starts:
+            t += [iff(c, b), ife(c, b, b), wh(c, b), fr(["i"], [c], b), fr(["i", "j"], [call("g"), c], b)]
+    fams["what a condition or iterator ends in x what a one-line body starts with"] = t
     t = []
     for k in range(0, 4):
         es = [A, bin_("+", B, I(1)), lst([Cn]), fn(["p"], N("p"))][:k]
